@@ -1,6 +1,12 @@
 //! A serializable log for arbitrary data.
 
-use std::{any::type_name, collections::HashMap, fs::File, io::BufWriter, path::Path};
+use std::{
+    any::type_name,
+    collections::HashMap,
+    fs::File,
+    io::{BufWriter, Write},
+    path::Path,
+};
 
 use better_any::{Tid, TidAble};
 use erased_serde::Serialize as DynSerialize;
@@ -164,16 +170,18 @@ impl Log {
     }
 
     pub fn to_json(&self, path: impl AsRef<Path>) -> ExecResult<()> {
-        let writer = create_writer(path)?;
-        serde_json::to_writer_pretty(writer, &self.as_compressed())
+        let mut writer = create_writer(path)?;
+        serde_json::to_writer_pretty(&mut writer, &self.as_compressed())
             .wrap_err("failed to write json log")?;
+        writer.flush().wrap_err("failed to write json log")?;
         Ok(())
     }
 
     pub fn to_cbor(&self, path: impl AsRef<Path>) -> ExecResult<()> {
-        let writer = create_writer(path)?;
-        ciborium::ser::into_writer(&self.as_compressed(), writer)
+        let mut writer = create_writer(path)?;
+        ciborium::ser::into_writer(&self.as_compressed(), &mut writer)
             .wrap_err("failed to write cbor log")?;
+        writer.flush().wrap_err("failed to write cbor log")?;
         Ok(())
     }
 }
